@@ -45,7 +45,7 @@ impl Property for C14 {
         "C14"
     }
     fn rule(&self) -> &'static str {
-        "case = valid instance x history of <=8 (quick) / <=20 (thorough) operations from relax(id, reason, params) / restore(id) / evaluate(state) with ids drawn from active, removed and unknown ids; \
+        "case = valid instance x history of <=8 (quick) / <=20 (thorough) operations from relax(id, reason, params) / restore(id) / evaluate(state) with ids drawn from active, removed and unknown ids, free-text reasons (empty, outer blanks, line breaks); sweep: 1000 / 1200 constraints under a fixed 14-step history; \
          oracle = two-map model (id -> constraint, id -> removal reason) + reference evaluator; invariant checked after every step; non-trivial = history with a successful relax followed by a restore of the same id and at least one failing operation; distinct = sha256(instance, history)"
     }
     fn required_labels(&self) -> Vec<String> {
